@@ -142,7 +142,7 @@ func (ex *Exec) emit(st *State, kind, label string, goal *Term, pos token.Pos, p
 	name := ex.TopName + "#" + kind + ":" + label
 	ex.oblSeq[name]++
 	o := &Obligation{Name: name, Kind: kind, Func: ex.TopName, Pos: posString(ex.P.SSA.Fset, pos), Props: props, Inst: ex.oblSeq[name],
-		Q: &Query{Assumes: st.PC.list(), Goal: goal, Cheap: kind == "nil"}, Trace: append([]string{}, st.Trace...)}
+		Q: &Query{Assumes: st.PC.list(), Goal: goal, Cheap: kind == "nil" || kind == "lock" || kind == "immutable"}, Trace: append([]string{}, st.Trace...)}
 	o.ReplayArgs, o.ReplayFn, o.ReplayPkg, o.ReplayLen = ex.ReplayArgs, ex.ReplayFn, ex.ReplayPkg, ex.ReplayLen
 	ex.Obls = append(ex.Obls, o)
 }
@@ -671,6 +671,9 @@ func (ex *Exec) storeObj(st *State, ref *Term, class string, t types.Type, v Val
 }
 
 func (ex *Exec) load(st *State, p *PtrV) Value {
+	if v, ok := romLoad(st, p); ok {
+		return v
+	}
 	switch p.Root {
 	case RLocal:
 		v, ok := st.Locals[p.Cell]
@@ -741,6 +744,10 @@ func (ex *Exec) assumeInv(st *State, t types.Type, v Value) {
 }
 
 func (ex *Exec) store(st *State, p *PtrV, v Value, pos token.Pos) {
+	if _, isROM := romLoad(st, p); isROM {
+		ex.emit(st, "immutable", "write to read-only package table", False, pos, nil)
+		return
+	}
 	switch p.Root {
 	case RLocal:
 		old := st.Locals[p.Cell]
